@@ -356,3 +356,139 @@ def r_once(e, R):
                 "retry loop around the task call: a task body can execute more than once", e.loc(w, n.ast))
     # the call queue get is consuming and blocking (one item per read)
     R.floor("R-ONCE", 8)
+
+
+# ---------------------------------------------------------------------------
+# R-MAP-SHAPE (C03): the chunking pipeline of map() preserves multiplicity and order
+# ---------------------------------------------------------------------------
+
+def _single(xs, what):
+    if len(xs) != 1:
+        raise AnalysisError(f"map pipeline: {what} not recognised ({len(xs)} candidates)")
+    return xs[0]
+
+
+def r_map_shape(e, R):
+    """map(fn, *its, chunksize=k) == builtin map for every k and every length rests on three small pure functions.  Their
+    *shape* decides multiplicity and order; the idioms accepted for each are enumerated, anything else is refused
+    (ANALYSIS-ERROR) rather than guessed, a recognised idiom that loses / duplicates / reorders elements is a violation."""
+    a = e.anchors
+    cls = e.prog.classes[a.executor_cls]
+    mp_ = cls.methods.get("map")
+    if mp_ is None:
+        raise AnalysisError("executor has no map() override")
+    # the pipeline: super().map(partial(<chunk runner>, fn), <chunker>(chunksize, *iterables), timeout=...) -> <chain>(results)
+    sup = _single([c for c in func_nodes(mp_) if isinstance(c, ast.Call) and isinstance(c.func, ast.Attribute) and c.func.attr == "map"
+                   and isinstance(c.func.value, ast.Call) and norm(c.func.value.func) == "super"], "super().map call")
+    if len(sup.args) != 2:
+        raise AnalysisError("map pipeline: super().map is not called with (function, one iterable of chunks)")
+    part, chunks = sup.args
+    okp = isinstance(part, ast.Call) and norm(part.func).endswith("partial") and len(part.args) == 2 and isinstance(part.args[1], ast.Name) and part.args[1].id == mp_.params[1]
+    runner = {v[1] for v in e.pt.ev(mp_, part.args[0]) if v[0] == "func"} if okp else set()
+    R.check(okp and len(runner) == 1, "R-MAP-SHAPE", "map: every chunk is run by partial(<chunk runner>, fn) with the caller's fn", mp_.short, norm(part)[:60],
+            "the chunks are not processed with the function passed to map()", e.loc(mp_, part))
+    chunker = {q for q in e.callees_of(chunks)} if isinstance(chunks, ast.Call) else set()
+    okc = isinstance(chunks, ast.Call) and len(chunker) == 1 and len(chunks.args) == 2 and isinstance(chunks.args[1], ast.Starred) and \
+        isinstance(chunks.args[1].value, ast.Name) and chunks.args[1].value.id == (mp_.vararg or "")
+    R.check(okc, "R-MAP-SHAPE", "map: the chunks are cut from all the caller's iterables", mp_.short, norm(chunks)[:60], "map() ignores some of its iterables", e.loc(mp_, chunks))
+    tmo = [k for k in sup.keywords if k.arg == "timeout"]
+    R.check(len(tmo) == 1, "R-MAP-SHAPE", "map: the timeout is forwarded", mp_.short, norm(sup)[:60], "map(timeout=...) is ignored", e.loc(mp_, sup))
+    rets = [r for r in func_nodes(mp_) if isinstance(r, ast.Return)]
+    okr = len(rets) == 1 and isinstance(rets[0].value, ast.Call) and len(rets[0].value.args) == 1 and len(e.callees_of(rets[0].value)) == 1
+    chain = next(iter(e.callees_of(rets[0].value))) if okr else None
+    if okr:
+        arg = rets[0].value.args[0]
+        okr = isinstance(arg, ast.Name) and any(isinstance(d, ast.Call) and d is sup for d in e.local_defs(mp_, arg.id))
+    R.check(okr, "R-MAP-SHAPE", "map: returns the flattened results of the chunk calls", mp_.short, norm(rets[0].value)[:60] if rets else "", "map() does not return the chained chunk results",
+            e.loc(mp_, mp_.node))
+    if not (okp and len(runner) == 1 and okc and chain):
+        return
+    # --- chunk runner: one fn(*args) per element of the chunk, in order, nothing filtered
+    rf = e.prog.funcs[next(iter(runner))]
+    fnp, chp = rf.params[0], rf.params[1]
+    rr = _single([r for r in func_nodes(rf) if isinstance(r, ast.Return)], "return of the chunk runner")
+    v = rr.value
+    if isinstance(v, ast.ListComp) and len(v.generators) == 1:
+        gen = v.generators[0]
+        ok = isinstance(gen.iter, ast.Name) and gen.iter.id == chp and not gen.ifs and isinstance(gen.target, ast.Name) and isinstance(v.elt, ast.Call) \
+            and isinstance(v.elt.func, ast.Name) and v.elt.func.id == fnp and len(v.elt.args) == 1 and isinstance(v.elt.args[0], ast.Starred) \
+            and isinstance(v.elt.args[0].value, ast.Name) and v.elt.args[0].value.id == gen.target.id and not v.elt.keywords
+        R.check(ok, "R-MAP-SHAPE", f"{rf.short}: [fn(*args) for args in chunk] -- one call per element, in order, none filtered", rf.short, norm(v)[:70],
+                "the chunk runner skips, reorders or mis-applies elements of its chunk: map() returns fewer / other results than builtin map", e.loc(rf, v))
+    elif isinstance(v, ast.Call) and norm(v.func) == "list" and len(v.args) == 1 and isinstance(v.args[0], ast.Call) and norm(v.args[0].func).endswith("starmap"):
+        sm = v.args[0]
+        ok = len(sm.args) == 2 and isinstance(sm.args[0], ast.Name) and sm.args[0].id == fnp and isinstance(sm.args[1], ast.Name) and sm.args[1].id == chp
+        R.check(ok, "R-MAP-SHAPE", f"{rf.short}: list(starmap(fn, chunk))", rf.short, norm(v)[:70], "the chunk runner does not apply fn to every element of its chunk", e.loc(rf, v))
+    else:
+        raise AnalysisError(f"map pipeline: the chunk runner returns `{norm(v)[:60]}`, a shape this rule does not know")
+    # --- chunker: consecutive islices of ONE zip iterator, stop at the first empty chunk, yield the chunk itself
+    cf = e.prog.funcs[next(iter(chunker))]
+    ksz = cf.params[0]
+    zips = [n for n in func_nodes(cf) if isinstance(n, ast.Assign) and isinstance(n.value, ast.Call) and norm(n.value.func) == "zip" and len(n.value.args) == 1
+            and isinstance(n.value.args[0], ast.Starred) and isinstance(n.value.args[0].value, ast.Name) and n.value.args[0].value.id == (cf.vararg or "")]
+    if len(zips) != 1 or not isinstance(zips[0].targets[0], ast.Name):
+        raise AnalysisError("map pipeline: the chunker does not start with `it = zip(*iterables)`")
+    itv = zips[0].targets[0].id
+    g = e.cfg(cf)
+    loops = [n for n in func_nodes(cf) if isinstance(n, ast.While)]
+    R.check(len(loops) == 1 and not any(zips[0] is x for x in ast.walk(loops[0])), "R-MAP-SHAPE", f"{cf.short}: ONE zip iterator is created, outside the loop", cf.short, norm(zips[0]),
+            "the iterables are re-zipped per chunk: every chunk restarts from the first element", e.loc(cf, zips[0]))
+    cuts = [n for n in func_nodes(cf) if isinstance(n, ast.Assign) and isinstance(n.targets[0], ast.Name) and any(isinstance(c, ast.Call) and norm(c.func).endswith("islice")
+                                                                                                                 for c in ast.walk(n.value))]
+    cut = _single(cuts, "islice cut of the chunker")
+    isl = [c for c in ast.walk(cut.value) if isinstance(c, ast.Call) and norm(c.func).endswith("islice")][0]
+    okcut = len(isl.args) == 2 and isinstance(isl.args[0], ast.Name) and isl.args[0].id == itv and isinstance(isl.args[1], ast.Name) and isl.args[1].id == ksz \
+        and isinstance(cut.value, ast.Call) and norm(cut.value.func) in ("tuple", "list") and cut.value.args[0] is isl
+    R.check(okcut, "R-MAP-SHAPE", f"{cf.short}: each chunk is tuple(islice(it, chunksize)) of the shared iterator", cf.short, norm(cut.value)[:70],
+            "chunks are not consecutive slices of chunksize elements of the zipped iterables (elements skipped, chunk size off by one, ...)", e.loc(cf, cut))
+    cv = cut.targets[0].id
+    ylds = [n for n in func_nodes(cf) if isinstance(n, ast.Yield)]
+    R.check(len(ylds) == 1 and isinstance(ylds[0].value, ast.Name) and ylds[0].value.id == cv, "R-MAP-SHAPE", f"{cf.short}: yields every cut chunk, unchanged", cf.short,
+            norm(ylds[0])[:50] if ylds else "", "a chunk is dropped or altered between the cut and the yield", e.loc(cf, cf.node))
+    # an empty chunk (and only an empty chunk) ends the generator; a non-empty one is always yielded
+    from . import scenario as SC
+    yn = lambda n: any(isinstance(x, ast.Yield) for x in ast.walk(n.ast)) if n.ast is not None and n.kind == "stmt" else False
+    cutn = [n for n in g.nodes if n.kind == "stmt" and n.ast is cut]
+    rtn = lambda n: n.kind == "stmt" and isinstance(n.ast, ast.Return)
+    for cn in cutn:
+        okE = SC.Facts([(SC.name(cv), "T")]).edge_ok()
+        esc = g.find_path(cn, lambda n: n is g.exit or rtn(n) or (n in cutn), avoid=yn, use_exc=False, edge_ok=okE)
+        okF = SC.Facts([(SC.name(cv), "F")]).edge_ok()
+        bad = g.find_path(cn, yn, use_exc=False, edge_ok=okF, avoid=lambda n: n in cutn)
+        loopback = g.find_path(cn, lambda n: n in cutn, use_exc=False, edge_ok=okF)
+        R.check(esc is None and bad is None and loopback is None, "R-MAP-SHAPE", f"{cf.short}: a non-empty chunk is always yielded; the first empty one ends the generator", cf.short,
+                f"if not {cv}: return; yield {cv}", "the chunker stops before the iterables are exhausted (results missing), yields empty chunks forever, or never terminates",
+                e.loc(cf, cut))
+    # --- chain: every element of every list, in order
+    ch = e.prog.funcs[chain]
+    outer = _single([n for n in func_nodes(ch) if isinstance(n, ast.For) and isinstance(n.iter, ast.Name) and n.iter.id == ch.params[0]], "outer loop of the chain")
+    ev_ = outer.target.id if isinstance(outer.target, ast.Name) else None
+    body_calls = [c for s_ in outer.body for c in ast.walk(s_) if isinstance(c, ast.Call) and isinstance(c.func, ast.Attribute) and isinstance(c.func.value, ast.Name)
+                  and c.func.value.id == ev_]
+    revs = [c for c in body_calls if c.func.attr == "reverse"]
+    pops = [c for c in body_calls if c.func.attr == "pop"]
+    yfrom = [n for s_ in outer.body for n in ast.walk(s_) if isinstance(n, ast.YieldFrom) and isinstance(n.value, ast.Name) and n.value.id == ev_]
+    inner_for = [n for s_ in outer.body for n in ast.walk(s_) if isinstance(n, ast.For) and isinstance(n.iter, ast.Name) and n.iter.id == ev_]
+    if pops:
+        front = all(len(c.args) == 1 and isinstance(c.args[0], ast.Constant) and c.args[0].value == 0 for c in pops)
+        back = all(not c.args for c in pops)
+        if not (front or back):
+            raise AnalysisError("map pipeline: the chain pops from an index this rule does not know")
+        whiles = [n for s_ in outer.body for n in ast.walk(s_) if isinstance(n, ast.While)]
+        drained = len(whiles) == 1 and isinstance(whiles[0].test, ast.Name) and whiles[0].test.id == ev_ and all(any(c is x for x in ast.walk(whiles[0])) for c in pops) \
+            and all(isinstance(e.prog.parent.get(id(c)), ast.Yield) for c in pops)
+        ordered = (front and not revs) or (back and len(revs) == 1 and not any(revs[0] is x for w_ in whiles for x in ast.walk(w_)))
+        R.check(drained and ordered, "R-MAP-SHAPE", f"{ch.short}: yields every element of every chunk result, in order", ch.short,
+                ("reverse(); " if revs else "") + f"while {ev_}: yield {ev_}.pop({'0' if front else ''})",
+                "the results of a chunk come back reversed / incomplete: map() with chunksize > 1 differs from builtin map", e.loc(ch, outer))
+    elif yfrom and not revs:
+        R.ok("R-MAP-SHAPE", f"{ch.short}: yield from each chunk result", e.loc(ch, outer))
+    elif inner_for and not revs:
+        ok = all(any(isinstance(y, ast.Yield) and isinstance(y.value, ast.Name) and isinstance(f_.target, ast.Name) and y.value.id == f_.target.id for y in ast.walk(f_))
+                 and not any(isinstance(x, (ast.Break, ast.Continue, ast.If)) for x in ast.walk(f_)) for f_ in inner_for)
+        R.check(ok, "R-MAP-SHAPE", f"{ch.short}: yields every element of every chunk result, in order", ch.short, "for x in element: yield x", "elements are skipped", e.loc(ch, outer))
+    else:
+        raise AnalysisError("map pipeline: the chain function has a shape this rule does not know")
+    R.check(not any(isinstance(x, (ast.Break, ast.Return)) for s_ in outer.body for x in ast.walk(s_)), "R-MAP-SHAPE", f"{ch.short}: no chunk result is skipped", ch.short,
+            "no break/return in the outer loop", "the chain stops early", e.loc(ch, outer))
+    R.floor("R-MAP-SHAPE", 9)
